@@ -42,6 +42,12 @@ CHECKS = {
             "registration order, the loading of the patching/ordering/deploy rulebooks, and structural equality of rulebooks from fresh providers and a "
             "fresh process with another hash seed. Exhaustive over the finite database; held = all observations consistent.",
             "Trusted: sre_parse-based model synthesiser (each synthesised string is re-checked against the regex chain); the expected vendor is derived from the vendors' own match() expressions.", "4/C18"),
+    "C08": ("invariant hook on PatchTree.sort (permutation), rank oracle R6 on sibling commands of real patches and ordered configs, metamorphic relation on the shipped ordering rulebooks",
+            "Every PatchTree.sort call is observed through a hook asserting a pure permutation (children stay with their parent); for generated ordering rulebooks with disjoint "
+            "sibling languages the order of sibling commands in real patches and in order_config output is compared pairwise with the reference rank; order_config is checked to be "
+            "an idempotent permutation that keeps unmentioned rows in place; on the fixture corpus with the shipped *.order files, deleting an unrelated top-level row must not "
+            "change the relative order of the remaining commands.",
+            "Trusted: R6 (vf/ref/order.py), R1, R2. Removal = row starts with the negation word. Ties inside one rank are not judged. Two known findings listed.", "4/C08"),
     "C12": ("offline history checker (conservation / exactly-once / payload identity / termination) over recorded pool histories under a parameter grid and sys.monitoring delay injection",
             "Each pool run executes the real Parallel.irun/run with real forked workers in its own subprocess; submit/start/done/reap/deliver/end events are "
             "logged through an O_APPEND log and checked offline: every submitted id delivered exactly once with the value (or failure) its task produced, "
